@@ -318,3 +318,71 @@ Section Trace.
     pose proof (potential_bound V nlast Hbl). lia.
   Qed.
 End Trace.
+
+(* ---------- behind a peer => the peer holds something deliverable ---------- *)
+Definition node_same (n n' : node) : Prop :=
+  forall X c, nm_get X (cs_nodes (nd_cs n)) = Some c -> exists c', nm_get X (cs_nodes (nd_cs n')) = Some c' /\ same_frontier c c'.
+
+Lemma node_same_trans a b c : node_same a b -> node_same b c -> node_same a c.
+Proof.
+  intros H1 H2 X x Hx. destruct (H1 X x Hx) as (y & Hy & [A1 A2]). destruct (H2 X y Hy) as (z & Hz & [B1 B2]).
+  exists z. split; [exact Hz|]. split; congruence.
+Qed.
+
+Lemma report_heartbeat_same now n i hb : node_same n (report_heartbeat now n i hb).
+Proof.
+  intros X c Hc. unfold report_heartbeat. destruct (id_eqb i (self_id n)).
+  { exists c. split; [exact Hc|split; reflexivity]. }
+  match goal with |- context [nm_get i (cs_nodes ?c0)] => set (cs := c0) end.
+  assert (Hcs : nm_get X (cs_nodes cs) = Some c).
+  { unfold cs. destruct (match last_heartbeat_if_deleted (nd_cs n) i with Some _ => _ | None => _ end); [|exact Hc].
+    rewrite mut_or_init_get, Hc. reflexivity. }
+  destruct (nm_get i (cs_nodes cs)) as [ci|] eqn:Ei.
+  2:{ exists c. split; [exact Hcs|split; reflexivity]. }
+  destruct (try_set_heartbeat ci hb) as [ci' fresh] eqn:Et.
+  pose proof (try_set_heartbeat_frontier ci hb) as Hfr. rewrite Et in Hfr. cbn [fst] in Hfr.
+  assert (Hget : exists c', nm_get X (nm_insert i ci' (cs_nodes cs)) = Some c' /\ same_frontier c c').
+  { destruct (id_dec i X) as [<-|Hne].
+    - rewrite nm_get_insert_same. exists ci'. split; [reflexivity|]. rewrite Hcs in Ei. injection Ei as <-. exact Hfr.
+    - rewrite nm_get_insert_other by exact Hne. exists c. split; [exact Hcs|split; reflexivity]. }
+  destruct fresh; exact Hget.
+Qed.
+
+Lemma report_heartbeats_same now dg : forall n, node_same n (report_heartbeats_in_digest now n dg).
+Proof.
+  unfold report_heartbeats_in_digest. induction dg as [|e r IH]; intros n; cbn [fold_left].
+  - intros X c Hc. exists c. split; [exact Hc|split; reflexivity].
+  - eapply node_same_trans; [apply report_heartbeat_same|apply IH].
+Qed.
+
+Lemma update_self_heartbeat_same n : node_same n (update_self_heartbeat n).
+Proof.
+  intros X c Hc. unfold update_self_heartbeat, update_copy. cbn [nd_cs with_cs].
+  set (cs := node_state_mut_or_init (nd_cs n) (self_id n)).
+  assert (Hcs : nm_get X (cs_nodes cs) = Some c) by (unfold cs; rewrite mut_or_init_get, Hc; reflexivity).
+  destruct (nm_get (self_id n) (cs_nodes cs)) as [c0|] eqn:E0; cbn [cs_nodes].
+  - destruct (id_dec (self_id n) X) as [<-|Hne].
+    + rewrite nm_get_insert_same. rewrite Hcs in E0. injection E0 as <-. exists (inc_heartbeat c). split; [reflexivity|split; reflexivity].
+    + rewrite nm_get_insert_other by exact Hne. exists c. split; [exact Hcs|split; reflexivity].
+  - exists c. split; [exact Hcs|split; reflexivity].
+Qed.
+
+(* If b holds, for a member it does not quarantine, a copy whose max version is beyond what the
+   quiet node a holds (or a does not know the member), then b has something deliverable for a's SYN:
+   the list of stale members b computes when it answers is not empty. *)
+Theorem behind_implies_deliverable now a b X cb :
+  node_inv b ->
+  nm_get X (cs_nodes (nd_cs b)) = Some cb ->
+  let dg := compute_digest (nd_cs a) [] in
+  let b1 := report_heartbeats_in_digest now (update_self_heartbeat b) dg in
+  in_ids X (scheduled now b1) = false ->
+  (match nm_get X (cs_nodes (nd_cs a)) with Some ca => c_max ca | None => 0 end) < c_max cb ->
+  exists n, In n (stale_nodes (nd_cs b1) dg (scheduled now b1)).
+Proof.
+  intros Hb Hcb dg b1 Hsched Hlt.
+  destruct (update_self_heartbeat_same b X cb Hcb) as (c0 & Hc0 & [_ M0]).
+  destruct (report_heartbeats_same now dg (update_self_heartbeat b) X c0 Hc0) as (c1 & Hc1 & [_ M1]). fold b1 in Hc1.
+  apply stale_nodes_nonempty_iff. exists X, c1. split; [apply (sm_get_in id_cmp id_cmp_eq); exact Hc1|]. split; [exact Hsched|].
+  unfold dg. rewrite advertised_unquarantined. cbn [snd].
+  destruct (nm_get X (cs_nodes (nd_cs a))) as [ca|]; cbn [snd]; lia.
+Qed.
